@@ -213,6 +213,9 @@ def conditions(tier):
     return cs
 
 
+# validate() compares the real implementation with the property itself
+VALIDATION_CHECKS_PROPERTY = True
+
 ASSUMPTIONS = ['compression is a property of the file name in the model (codecs are C code)',
                'the uncompressed size reported by the text layer is a symbolic value per '
                'logical Manifest']
